@@ -8,6 +8,7 @@ Definition can_step (s : st) (ws : wst) : bool :=
   match ws with
   | WIdle | WPopped _ | WPopped2 _ | WDeliv _ | WRun _ => true
   | WParked e | WParked2 e => is_due s e
+  | WChosen e => is_due s e || (shut s && fignore s)
   | WWait | WExit => false
   end.
 
@@ -75,8 +76,7 @@ Lemma ctx_proj s e : heap (fst (ctx_branch s e)) = heap s /\ workers (fst (ctx_b
   (active (snd (ctx_branch s e)) = true \/ (fcancel s = true /\ snd (ctx_branch s e) = WExit)).
 Proof.
   unfold ctx_branch. destruct (fcancel s) eqn:F; simpl; [repeat split; auto|].
-  destruct (fignore s); [|simpl; repeat split; auto].
-  destruct (deliver_proj s e) as (A & B & C & D & E). rewrite F in D. repeat split; auto.
+  destruct (fignore s); simpl; repeat split; auto.
 Qed.
 
 Lemma take_proj s e b : (b = BCtx -> shut s = true) ->
@@ -87,7 +87,7 @@ Proof.
   intros Hb. destruct b; simpl.
   - destruct (ctx_proj s e) as (A & B & C & D & [E|[E1 E2]]); repeat split; auto.
   - repeat split; auto.
-  - destruct (deliver_proj s e) as (A & B & C & D & E). repeat split; auto.
+  - repeat split; auto.
 Qed.
 
 (* generic closing step for worker_step: result = set_workers s1 (wupd (workers s1) i new) *)
@@ -119,7 +119,7 @@ Proof.
       destruct (ready_outer_sound s e _ (I ltac:(rewrite R; discriminate))) as [Hc _].
       destruct (take_proj s e _ Hc) as (A & B & C & D & E). eapply pis_fin; eauto.
   - (* WParked *)
-    destruct (is_due s e); auto. destruct (deliver_proj s e) as (A & B & C & D & E). eapply pis_fin; eauto.
+    destruct (is_due s e); auto. eapply pis_fin; eauto.
   - (* WPopped2 *)
     destruct (ready_inner s e) as [|b r] eqn:R.
     + eapply pis_fin; eauto.
@@ -128,7 +128,10 @@ Proof.
       destruct (take_proj s e (nth (c mod length (ready_inner s e)) (ready_inner s e) BTim)) as (A & B & C & D & E);
         [intros; congruence|]. eapply pis_fin; eauto.
   - (* WParked2 *)
-    destruct (is_due s e); auto. destruct (deliver_proj s e) as (A & B & C & D & E). eapply pis_fin; eauto.
+    destruct (is_due s e); auto. eapply pis_fin; eauto.
+  - (* WChosen *)
+    destruct (is_due s e || (shut s && fignore s)); auto.
+    destruct (deliver_proj s e) as (A & B & C & D & E). eapply pis_fin; eauto.
   - (* WDeliv *)
     destruct (ekey e) as [k|]; [destruct (mode s)|]; simpl.
     + eapply (pis_fin n s (emit s _)); eauto.
@@ -348,7 +351,7 @@ Lemma active_can_step s w : active w = true ->
   exists d, can_step (step s (LTick d)) w = true.
 Proof.
   destruct w; simpl; try discriminate; intros _; try (exists 0%N; reflexivity);
-    exists (etime e); unfold is_due; simpl; apply N.leb_le; lia.
+    exists (etime e); unfold is_due; simpl; try apply orb_true_iff; try left; apply N.leb_le; lia.
 Qed.
 
 Theorem progress_run w m md rc bc ls :
